@@ -40,3 +40,5 @@ package output
 //@   site (*Logger).FOutf#1 requires held(pw.prefixed.mutex) && arg1 == pw.writer                                      [C17,C18]
 //@   site fmt.Fprint#2 requires held(pw.prefixed.mutex)                                                                [C17,C18]
 //@   site fmt.Fprint#3 requires held(pw.prefixed.mutex)                                                                [C17,C18]
+//@ guarded_by Prefixed.seen Prefixed.mutex                                                                          [C18]
+//@ guarded_by Prefixed.counter Prefixed.mutex                                                                       [C18]
